@@ -511,16 +511,17 @@ impl super::MainState {
                 )
                 .await?;
             }
-            if end {
-                self.feed_msg(
-                    &mut conn_state.stream,
-                    RplEndOfNames366 {
-                        client,
-                        channel: channel_name,
-                    },
-                )
-                .await?;
-            }
+        }
+        // end of names must be sent for secret channel too - same as for not existing.
+        if end {
+            self.feed_msg(
+                &mut conn_state.stream,
+                RplEndOfNames366 {
+                    client,
+                    channel: channel_name,
+                },
+            )
+            .await?;
         }
         Ok(())
     }
